@@ -2695,8 +2695,6 @@ public:
 				}
 				else {
 					// the source real is a subnormal number				
-					mask = 0x00FF'FFFFu >> (fbits + exponent + subnormal_reciprocal_shift[es] + 1); // mask for sticky bit 
-
 					// fraction processing: we have fbits+1 bits = 1 hidden + fbits explicit fraction bits 
 					// f = 1.ffff  2^exponent * 2^fbits * 2^-(2-2^(es-1)) = 1.ff...ff >> (23 - (-exponent + fbits - (2 -2^(es-1))))
 					// -exponent because we are right shifting and exponent in this range is negative
